@@ -68,7 +68,7 @@ def t1_analyze(F, res):
             for fd in v["fields"]:
                 if (short, fd["name"]) in grow:
                     rows[(f["path"], v["name"], fd["name"])] = grow[(short, fd["name"])]
-        res.add(e3.check_impl_method(F, f, st, fam, "ref", "T1", rows, must_paths=False))  # a bailing analyzer returns a report that carries the error: not a silent skip
+        res.add(e3.check_impl_method(F, f, st, fam, "ref", "T1", rows, path_ok_blocks=_reporting_blocks))
     res.count("Analyzable::analyze impls on AST types", n)
     res.floor("Analyzable::analyze impls on AST types", n, 55)
     res.floor("AST family types", len(fam), 55)
@@ -220,6 +220,25 @@ def facade(F, res):
         res.add([ok("FACADE", key2, w, "the template name passed is `tx.name.value` of an element of ast.txs")])
     else:
         res.add([finding("FACADE", key2, w, "the template name passed to lowering::lower is not taken from the program's own transactions")])
+
+
+def _reporting_blocks(fn):
+    """blocks of an analyze() body after which the returned report is not silent about the node: a diagnostic is constructed,
+    or a child's analyze() is called on this very path (its report is what gets returned).  A path that skips a field is
+    acceptable for the analyzer only if it passes one of these - a bailing analyzer reports the error instead of descending."""
+    out = set()
+    for bi, b in enumerate(fn["blocks"]):
+        if b["cleanup"]:
+            continue
+        for s in b["s"]:
+            if s["rv"]["k"] == "agg" and s["rv"].get("adt") == "tx3_lang::analyzing::Error":
+                out.add(bi)
+        t = b["t"]
+        if t["k"] == "call":
+            c = t.get("callee") or ""
+            if c.startswith("tx3_lang::analyzing::Error::") or (t.get("trait") == "tx3_lang::analyzing::Analyzable" and t.get("method") == "analyze"):
+                out.add(bi)
+    return out
 
 
 def run(ctx):
